@@ -90,6 +90,9 @@ const sinkFile = -1
 
 var scratchDir string
 
+// stderrPtyCols > 0: the next runs get a pty of that width as standard error (set around single calls; shards are processes).
+var stderrPtyCols int
+
 func runCLIOnce(bin string, args []string, chunks []string, pause time.Duration, rows, cols int) (res cliOut) {
 	ctx, cancel := context.WithTimeout(context.Background(), 90*time.Second)
 	defer cancel()
@@ -97,6 +100,28 @@ func runCLIOnce(bin string, args []string, chunks []string, pause time.Duration,
 	cmd.Env = append(os.Environ(), "TERM=xterm")
 	var errBuf bytes.Buffer
 	cmd.Stderr = &errBuf
+	if stderrPtyCols > 0 {
+		// standard error is a (narrow) terminal of its own while standard output is not one: what is written to standard
+		// output must not be cut to that terminal's width
+		if m, sl, err := openPty(24, stderrPtyCols); err == nil {
+			ef := os.NewFile(uintptr(sl), "pty-stderr")
+			cmd.Stderr = ef
+			defer ef.Close()
+			go func() {
+				buf := make([]byte, 4096)
+				for {
+					n, err := syscall.Read(m, buf)
+					if err == syscall.EINTR {
+						continue
+					}
+					if err != nil || n <= 0 {
+						syscall.Close(m)
+						return
+					}
+				}
+			}()
+		}
+	}
 	stdin, err := cmd.StdinPipe()
 	if err != nil {
 		res.err = err
@@ -362,7 +387,12 @@ func runPty(c *run.Ctx, cs *Case) bool {
 	// itself ("will enable automatically when piping output") — the final lines top to bottom, no
 	// cursor movement, erase or carriage-return sequences.
 	if ok {
+		if (p.Cols+p.Rows)%2 == 1 {
+			stderrPtyCols = p.Cols
+			c.Count("pty_file_sink_runs_with_stderr_on_a_narrow_terminal", 1)
+		}
 		e := runCLI(c.RareBin, append([]string{"--color"}, p.Args...), all, 0, 0, sinkFile)
+		stderrPtyCols = 0
 		if incon("run with stdout redirected to a file", e) {
 			return false
 		}
